@@ -1,6 +1,7 @@
 """C05 — Flux variability analysis reports the true flux ranges."""
 from contracts import c15_dictlist, c04_status, c05_fva as C  # noqa
 from contracts import c09_pfba as CP
+from contracts import c05_fva_driver as CD
 from pyvc.contract import chain_hooks
 from props._generic import run_property, replay_with_driver
 
@@ -9,16 +10,27 @@ KEYS = ["_fva_step", "check_solver_status", "Model.slim_optimize", "add_pfba"]
 
 
 def run(rep):
-    run_property(rep, KEYS, hooks=chain_hooks(C.HOOKS, CP.HOOKS), lemmas=CP.lemmas, explanation=(
+    run_property(rep, KEYS, hooks=chain_hooks(C.HOOKS, CP.HOOKS), lemmas=CP.lemmas,
+                 more=[(["_init_worker", "flux_variability_analysis"], CD.HOOKS)], explanation=(
         "Deductive (kernel): _fva_step is proved, for every model and reaction id, to solve the current LP with +1*forward -1*reverse of "
         "the requested reaction added to the objective, to return (requested id, solver objective value), and to leave EVERY "
         "objective coefficient as at entry on normal return (given both were 0 at entry, which the sweep's prelude establishes) - "
         "the frame that makes FVA steps independent of each other; unknown ids raise KeyError with nothing changed; add_pfba, from which "
         "the total-flux cap of pfba_factor is derived, is proved to put coefficient 1 on the forward AND reverse variable of EVERY "
-        "reaction (C09 kernel + lemmas: the objective is the total absolute flux). The prelude's "
-        "constraints (fraction of optimum, pfba_factor), the pool fan-out, the loopless post-processing and GLPK's optimality are "
-        "NOT proved: bounded driver (ranges against exact rational min/max of the documented problem; loopless against brute force)."),
-        trusted=["optlang Objective.set_linear_coefficients (assumed contract)", "GLPK optimize (assumed, monitored)",
+        "reaction (C09 kernel + lemmas: the objective is the total absolute flux). flux_variability_analysis ITSELF is proved for "
+        "the serial, non-loopless path without pfba_factor over all reactions (loop invariant over the reaction ids, both sweeps): "
+        "the model is optimised first; ONE variable fva_old_objective, bounded by fraction_of_optimum x optimum from below for a "
+        "maximisation model and from above for a minimisation model, is tied to the old objective expression by an equality "
+        "constraint and both are added in one call; the objective is replaced by Zero; the direction is min in the first sweep and "
+        "max in the second (_init_worker, proved); in each sweep, for EVERY reaction the LP solved has exactly +1 forward -1 reverse "
+        "of that reaction as objective (contract of _fva_step at the call site inside map()) and the value stored under (id, "
+        "minimum / maximum) is the value of that solve; all coefficients are 0 again after every step; the function's context is "
+        "closed again. With the assumption that an `optimal` answer of the solver is a true optimum this is the statement for that "
+        "path. The pfba_factor branch, reaction_list given, the pool fan-out (C14), the loopless post-processing and GLPK's "
+        "optimality are NOT proved: bounded driver (ranges against exact rational min/max of the documented problem; loopless "
+        "against brute force)."),
+        trusted=["optlang Objective.set_linear_coefficients (assumed contract)", "an optimal LP has a finite optimum (in the assumed optimize contract)",
+                 "pandas / numpy / optlang constructors as uninterpreted operations; model.add_cons_vars and the objective setter as recorded calls", "GLPK optimize (assumed, monitored)",
                  "DictList.get_by_id contract (proved under C15)"])
 
 
